@@ -42,7 +42,8 @@ func rulesC16(r *Run) {
 	for _, t := range []string{"Plan", "Checks", "Block", "Sequence"} {
 		ruleChildValidators(r, "R3", t)
 	}
-	r.Expect("R3", 4)
+	ruleValidateDriver(r, "R3")
+	r.Expect("R3", 8)
 
 	r.Kind("R4", "K11")
 	ruleSharedKeySet(r, "R4")
@@ -71,7 +72,8 @@ func rulesC16(r *Run) {
 		}
 		r.Paths += sub.Paths
 	}
-	r.Expect("R7", 3)
+	ruleRegisterContract(r, "R7")
+	r.Expect("R7", 8)
 
 	// R8: a plan rejected by storage leaves no trace (same constructs as C14-R1/R2, create scope only)
 	r.Kind("R8", "K6")
@@ -940,4 +942,390 @@ func rulePopulateRegistryRejects(r *Run, rule string) {
 		return
 	}
 	r.Check(rule, "populateRegistry:preset-register-is-refused", bpos, bad == "", "%s", orOK(bad, "HasRegister() ⇒ error returned at once"))
+}
+
+// ruleValidateDriver (second mutation sweep): the objects of a plan are validated by a work-list loop in workflow.Validate —
+// the plan is pushed, and every object popped pushes the children its validate() returned. The per-object rules (R2, R3)
+// say nothing if that loop never runs or drops children: deleting `q.push(p)` admitted every plan and passed every test.
+// Decided here: (a) on every path of Validate that returns nil the root parameter was pushed before the loop; (b) the loop
+// takes its element from pop() in its init and post statements and runs while it is non-nil; (c) every iteration that is
+// possible with "validate returned children" pushes exactly those before the next pop (assume-and-refute on
+// len(children) tests); (d) queue.push appends its arguments to the items on every path, queue.pop returns the first item
+// and removes it on every path that did not establish the queue empty.
+func ruleValidateDriver(r *Run, rule string) {
+	fn := r.fnByKey(rule, wfKey("Validate"))
+	if fn == nil {
+		return
+	}
+	fl, paths, ok := r.flowPaths(rule, fn)
+	if !ok {
+		return
+	}
+	paths = OwnOnly(paths)
+	info := fl.Info
+	pushKey, popKey := "workflow.queue.push", "workflow.queue.pop"
+	var root types.Object
+	if ps := fn.Decl.Type.Params; ps != nil && len(ps.List) == 1 && len(ps.List[0].Names) == 1 {
+		root = info.ObjectOf(ps.List[0].Names[0])
+	}
+	// (b) the loop
+	var loop *ast.ForStmt
+	ast.Inspect(fn.Decl.Body, func(x ast.Node) bool {
+		if l, ok := x.(*ast.ForStmt); ok && loop == nil {
+			loop = l
+		}
+		return true
+	})
+	isCallOf := func(e ast.Expr, key string) bool {
+		c, ok := ast.Unparen(e).(*ast.CallExpr)
+		if !ok {
+			return false
+		}
+		f, ok := calleeFunc(info, c)
+		return ok && FuncKey(f) == key
+	}
+	// (b) semantically, whatever the spelling of the loop: Validate answers nil only on a path whose last pop() was
+	// established to have returned nil — the queue was drained
+	badLoop := ""
+	nLoop := 0
+	for i := range paths {
+		p := &paths[i]
+		if p.Exit != ExitReturn {
+			continue
+		}
+		var ret *Event
+		ri := -1
+		for j := range p.Ev {
+			if p.Ev[j].Kind == EvReturn && !p.Ev[j].Deferred {
+				ret, ri = &p.Ev[j], j
+			}
+		}
+		if ret == nil || len(ret.Rhs) != 1 || ValueKey(info, ret.Rhs[0]) != "nil" {
+			continue
+		}
+		nLoop++
+		var lastPopVar ast.Expr
+		for j := 0; j < ri; j++ {
+			e := p.Ev[j]
+			if e.Kind == EvAssign && len(e.Lhs) == 1 && len(e.Rhs) == 1 && isCallOf(e.Rhs[0], popKey) {
+				lastPopVar = e.Lhs[0]
+			}
+		}
+		if (lastPopVar == nil || NilnessAt(info, p, ri, lastPopVar) != "nil") && badLoop == "" {
+			badLoop = "Validate returns nil on a path that did not establish that the last pop() answered nil (exit guard " + ExitGuardKey(fl, p) + "): it can accept a plan while objects are still waiting in the queue, unvalidated"
+		}
+	}
+	if nLoop == 0 {
+		badLoop = "Validate has no accepting path"
+	}
+	r.Check(rule, "Validate:accepts-only-with-the-queue-drained", fn.Decl.Pos(), badLoop == "", "%s", orOK(badLoop, "nil is returned only after pop() answered nil"))
+	// (a) root pushed first, (c) children pushed
+	badRoot, badKids := "", ""
+	nRoot, nKids := 0, 0
+	all := append(append([]Path{}, paths...), OwnOnly(fl.Truncated())...)
+	for i := range all {
+		p := &all[i]
+		firstPop, pushedRoot := -1, false
+		for j, e := range p.Ev {
+			if IsCall(e, popKey) && firstPop < 0 {
+				firstPop = j
+			}
+			if IsCall(e, pushKey) && firstPop < 0 && e.Call != nil {
+				for _, a := range e.Call.Args {
+					if ObjOf(info, a) == root && root != nil {
+						pushedRoot = true
+					}
+				}
+			}
+		}
+		if firstPop >= 0 {
+			nRoot++
+			if !pushedRoot && badRoot == "" {
+				badRoot = "Validate starts popping without having pushed the plan it was given: nothing is validated, every plan is admitted"
+			}
+		}
+		// iterations: from a validate call to the next pop
+		for j, e := range p.Ev {
+			if e.Kind != EvCall || e.Call == nil || !strings.HasSuffix(CalleeKey(e), ".validate") {
+				continue
+			}
+			u := UseOfResult(fl, p, j)
+			if u.Verdict != "nil" {
+				continue
+			}
+			// the children variable: first result of the call
+			var kids types.Object
+			for x := j; x < len(p.Ev) && x <= j+1; x++ {
+				if a := p.Ev[x]; a.Kind == EvAssign && len(a.Lhs) == 2 && len(a.Rhs) == 1 {
+					if c, ok := ast.Unparen(a.Rhs[0]).(*ast.CallExpr); ok && c == e.Call {
+						kids = ObjOf(info, a.Lhs[0])
+					}
+				}
+			}
+			if kids == nil {
+				continue
+			}
+			end := len(p.Ev)
+			for x := j + 1; x < len(p.Ev); x++ {
+				if IsCall(p.Ev[x], popKey) {
+					end = x
+					break
+				}
+			}
+			if end == len(p.Ev) && p.Exit != ExitTruncated {
+				continue // the path left the loop by returning
+			}
+			atom := func(c ast.Expr) (string, bool, bool) {
+				be, ok := ast.Unparen(c).(*ast.BinaryExpr)
+				if !ok {
+					return "", false, false
+				}
+				isLen := func(x ast.Expr) bool {
+					cc, ok := ast.Unparen(x).(*ast.CallExpr)
+					return ok && len(cc.Args) == 1 && ExprStr(cc.Fun) == "len" && ObjOf(info, cc.Args[0]) == kids
+				}
+				k, isC := ConstInt(info, be.Y)
+				if !isLen(be.X) || !isC || k != 0 {
+					return "", false, false
+				}
+				switch be.Op {
+				case token.NEQ, token.GTR:
+					return "has-children", false, true
+				case token.EQL:
+					return "has-children", true, true
+				}
+				return "", false, false
+			}
+			if PathRefutedRange(fl, p, j+1, end, map[string]bool{"has-children": true}, atom) {
+				continue
+			}
+			nKids++
+			pushed := false
+			for x := j + 1; x < end; x++ {
+				if IsCall(p.Ev[x], pushKey) && p.Ev[x].Call != nil {
+					for _, a := range p.Ev[x].Call.Args {
+						if ObjOf(info, a) == kids {
+							pushed = true
+						}
+					}
+				}
+			}
+			if !pushed && badKids == "" {
+				badKids = "an iteration of Validate that is possible when validate() returned children goes on to the next pop without pushing them: the objects below are never validated"
+			}
+		}
+	}
+	if nRoot == 0 || nKids == 0 {
+		r.Unresolved(rule, "Validate paths through the work-list loop")
+	} else {
+		r.Check(rule, "Validate:root-pushed-before-the-loop", fn.Decl.Pos(), badRoot == "", "%s", orOK(badRoot, "push(plan) precedes the first pop"))
+		r.Check(rule, "Validate:children-pushed", fn.Decl.Pos(), badKids == "", "%s", orOK(badKids, "children returned by validate() are pushed before the next pop"))
+	}
+	// (d) the queue
+	if push := r.fnByKey(rule, pushKey); push != nil {
+		okPush := false
+		pinfo := push.Pkg.TypesInfo
+		ast.Inspect(push.Decl.Body, func(x ast.Node) bool {
+			as, ok := x.(*ast.AssignStmt)
+			if !ok || len(as.Lhs) != 1 || len(as.Rhs) != 1 {
+				return true
+			}
+			if sel, ok := ast.Unparen(as.Lhs[0]).(*ast.SelectorExpr); ok && sel.Sel.Name == "items" {
+				if c, ok := ast.Unparen(as.Rhs[0]).(*ast.CallExpr); ok && ExprStr(c.Fun) == "append" && len(c.Args) == 2 && ExprStr(c.Args[0]) == ExprStr(as.Lhs[0]) && c.Ellipsis.IsValid() {
+					if v, isVar := pinfo.ObjectOf(rootIdent(c.Args[1])).(*types.Var); isVar && v != nil {
+						okPush = true
+					}
+				}
+			}
+			return true
+		})
+		// unconditional: the assignment is a top-level statement of the body
+		top := false
+		for _, st := range push.Decl.Body.List {
+			if as, ok := st.(*ast.AssignStmt); ok && len(as.Lhs) == 1 {
+				if sel, ok := ast.Unparen(as.Lhs[0]).(*ast.SelectorExpr); ok && sel.Sel.Name == "items" {
+					top = true
+				}
+			}
+		}
+		r.Check(rule, "queue.push:appends-its-arguments", push.Decl.Pos(), okPush && top, "queue.push must append all its arguments to the items, unconditionally (append seen=%s, unconditional=%s): what is not queued is never validated", boolStr(okPush), boolStr(top))
+	}
+	if pop := r.fnByKey(rule, popKey); pop != nil {
+		pfl, ppaths, ok := r.flowPaths(rule, pop)
+		if ok {
+			bad := ""
+			n := 0
+			for i := range ppaths {
+				p := &ppaths[i]
+				if p.Exit != ExitReturn {
+					continue
+				}
+				empty := false
+				removes, first := false, false
+				for _, e := range p.Ev {
+					if e.Kind == EvBranch && e.Cond != nil {
+						if be, ok := ast.Unparen(e.Cond).(*ast.BinaryExpr); ok && strings.HasPrefix(ExprStr(be.X), "len(") && strings.HasSuffix(ExprStr(be.X), ".items)") {
+							if k, isC := ConstInt(pfl.Info, be.Y); isC && k == 0 && ((be.Op == token.EQL) == e.Taken) {
+								empty = true
+							}
+						}
+					}
+					if e.Kind == EvAssign && len(e.Lhs) == len(e.Rhs) {
+						for k, l := range e.Lhs {
+							rhs := ast.Unparen(e.Rhs[k])
+							if sel, ok := ast.Unparen(l).(*ast.SelectorExpr); ok && sel.Sel.Name == "items" {
+								if se, ok := rhs.(*ast.SliceExpr); ok && se.Low != nil && se.High == nil {
+									if k, isC := ConstInt(pfl.Info, se.Low); isC && k == 1 {
+										removes = true
+									}
+								}
+							}
+							if ix, ok := rhs.(*ast.IndexExpr); ok && strings.HasSuffix(ExprStr(ix.X), ".items") {
+								if k, isC := ConstInt(pfl.Info, ix.Index); isC && k == 0 {
+									first = true
+								}
+							}
+						}
+					}
+				}
+				n++
+				if !empty && (!removes || !first) && bad == "" {
+					bad = "a path of queue.pop that did not establish the queue empty does not hand out items[0] and remove it (first taken=" + boolStr(first) + ", removed=" + boolStr(removes) + "): the loop of Validate then spins on one object or skips objects"
+				}
+			}
+			if n > 0 {
+				r.Check(rule, "queue.pop:first-item-removed", pop.Decl.Pos(), bad == "", "%s", orOK(bad, "non-empty ⇒ items[0] returned and removed"))
+			}
+		}
+	}
+}
+
+func rootIdent(e ast.Expr) *ast.Ident {
+	for {
+		switch x := ast.Unparen(e).(type) {
+		case *ast.Ident:
+			return x
+		case *ast.SelectorExpr:
+			e = x.X
+		case *ast.IndexExpr:
+			e = x.X
+		default:
+			return &ast.Ident{Name: "_"}
+		}
+	}
+}
+
+// ruleRegisterContract (second mutation sweep): what it means for a plugin to be registered. On every path of Register that
+// returns nil — assume-and-refute on the three guards, events for the rest: the plugin is not nil and its name not
+// blank (the path is impossible under "p == nil", and under "name blank"), no plugin of that name was there (impossible
+// under "the map lookup found one"), the retry policy was validated, and the plugin was stored under its name
+// (`r.m[p.Name()] = p`). "Every action naming a registered plugin" and the secret-field refusal of C17 both stand on it;
+// deleting the store, or negating the duplicate test, passed every test.
+func ruleRegisterContract(r *Run, rule string) {
+	fn := r.fnByKey(rule, "plugins/registry.Register.Register")
+	if fn == nil {
+		return
+	}
+	fl, paths, ok := r.flowPaths(rule, fn)
+	if !ok {
+		return
+	}
+	paths = OwnOnly(paths)
+	info := fl.Info
+	var plug types.Object
+	if ps := fn.Decl.Type.Params; ps != nil && len(ps.List) == 1 && len(ps.List[0].Names) == 1 {
+		plug = info.ObjectOf(ps.List[0].Names[0])
+	}
+	if plug == nil {
+		r.Unresolved(rule, "Register's plugin parameter")
+		return
+	}
+	// the ok variable of a map lookup `_, ok := r.m[…]`
+	lookupOK := map[types.Object]bool{}
+	ast.Inspect(fn.Decl.Body, func(x ast.Node) bool {
+		if as, ok := x.(*ast.AssignStmt); ok && len(as.Lhs) == 2 && len(as.Rhs) == 1 {
+			if ix, isIx := ast.Unparen(as.Rhs[0]).(*ast.IndexExpr); isIx {
+				if tv, ok := info.Types[ix.X]; ok {
+					if _, isMap := tv.Type.Underlying().(*types.Map); isMap {
+						if o := ObjOf(info, as.Lhs[1]); o != nil {
+							lookupOK[o] = true
+						}
+					}
+				}
+			}
+		}
+		return true
+	})
+	atom := func(e ast.Expr) (string, bool, bool) {
+		e = ast.Unparen(e)
+		if x, op, ok := IsNilCompare(info, e); ok && ObjOf(info, x) == plug {
+			return "plugin-nil", op == token.NEQ, true
+		}
+		if be, ok := e.(*ast.BinaryExpr); ok && (be.Op == token.EQL || be.Op == token.NEQ) {
+			for _, pair := range [][2]ast.Expr{{be.X, be.Y}, {be.Y, be.X}} {
+				if v, isS := ConstString(info, pair[1]); isS && v == "" && strings.Contains(ExprStr(pair[0]), ".Name()") {
+					return "name-blank", be.Op == token.NEQ, true
+				}
+			}
+		}
+		if id, ok := e.(*ast.Ident); ok && lookupOK[info.ObjectOf(id)] {
+			return "already-there", false, true
+		}
+		return "", false, false
+	}
+	bad := map[string]string{}
+	n := 0
+	for i := range paths {
+		p := &paths[i]
+		if p.Exit != ExitReturn {
+			continue
+		}
+		var ret *Event
+		for j := range p.Ev {
+			if p.Ev[j].Kind == EvReturn && !p.Ev[j].Deferred {
+				ret = &p.Ev[j]
+			}
+		}
+		if ret == nil || len(ret.Rhs) != 1 || ValueKey(info, ret.Rhs[0]) != "nil" {
+			continue
+		}
+		n++
+		for _, sit := range []struct{ key, what string }{
+			{"plugin-nil", "a nil plugin"}, {"name-blank", "a plugin with a blank name"}, {"already-there", "a plugin whose name is already taken"},
+		} {
+			if !PathRefuted(fl, p, -1, map[string]bool{sit.key: true}, atom) && bad[sit.key] == "" {
+				bad[sit.key] = "Register accepts " + sit.what + " (an accepting path stays possible)"
+			}
+		}
+		policy, stored := false, false
+		for _, e := range p.Ev {
+			if IsCall(e, "plugins/registry.validatePolicy") && e.Depth == 0 {
+				policy = true
+			}
+			if e.Kind == EvAssign && len(e.Lhs) == len(e.Rhs) {
+				for k, l := range e.Lhs {
+					if ix, ok := ast.Unparen(l).(*ast.IndexExpr); ok && ObjOf(info, e.Rhs[k]) == plug && strings.Contains(ExprStr(ix.Index), ".Name()") {
+						if tv, ok := info.Types[ix.X]; ok {
+							if _, isMap := tv.Type.Underlying().(*types.Map); isMap {
+								stored = true
+							}
+						}
+					}
+				}
+			}
+		}
+		if !policy && bad["policy"] == "" {
+			bad["policy"] = "Register accepts a plugin without validating its retry policy"
+		}
+		if !stored && bad["stored"] == "" {
+			bad["stored"] = "Register answers nil without storing the plugin under its name: the plugin is \"registered\" but every plan naming it is refused"
+		}
+	}
+	if n == 0 {
+		r.Unresolved(rule, "Register accepting path")
+		return
+	}
+	for _, k := range []string{"plugin-nil", "name-blank", "already-there", "policy", "stored"} {
+		r.Check(rule, "Register:"+map[string]string{"plugin-nil": "refuses-nil-plugin", "name-blank": "refuses-blank-name", "already-there": "refuses-duplicate-name", "policy": "validates-retry-policy", "stored": "stores-the-plugin"}[k], fn.Decl.Pos(), bad[k] == "", "%s", orOK(bad[k], "holds on every accepting path"))
+	}
 }
